@@ -4,6 +4,7 @@ from .. import wirecheck as W
 MODULE = 'Sbepp.Properties.C02'
 THEOREMS = [
     'Sbepp.Properties.C02.decode_image',
+    'Sbepp.Properties.C02.decode_image_accepted',
     'Sbepp.Properties.C02.scalar_roundtrip',
     'Sbepp.Properties.C02.scalar_bytes_roundtrip',
     'Sbepp.Properties.C02.message_size',
@@ -70,8 +71,9 @@ def run_decode(chk, module, theorems, ext, salt, n_quick=32, n_thorough=200):
     if chk.failed_obligations and not chk.violations:
         chk.report_unproved('theorem', chk.failed_obligations)
     chk.assumptions += [
-        'layout well-formedness (leaves inside their block) is a hypothesis of decode_image; it is checked at run '
-        'time for every generated schema by the model driver (conf=true) rather than proved from the resolver',
+        'decode_image_accepted discharges the layout hypothesis through resolve_wf for every layout accepted by the '
+        'validator MODEL (Schema/Resolve.lean); that model is tied to the real validator by the acceptance/offset '
+        'correspondence on generated schemas',
         'constant evaluation (C++20 constexpr) is not exercised by the drivers',
         'messages whose data header composite is not (length, varData) at offset 0, or whose block length does not '
         'fit its header member, are skipped here (counted in run_stats)',
